@@ -111,16 +111,16 @@ theorem xb_writer_palette (c s : Bool) (date : List Nat) (p : Pic) (bytes : List
   · exact hl
   · exact absurd ⟨hfp, hl⟩ hpb
 
-theorem setChar_pal (b : LBuf) (x y : Nat) (c : Cell) : (b.setChar x y c).pal = b.pal := by
+theorem setChar_keeps_pal (b : LBuf) (x y : Nat) (c : Cell) : (b.setChar x y c).pal = b.pal := by
   unfold LBuf.setChar; split <;> rfl
 
-theorem placeCell_pal (gl gb : Bool) (x0 xl : Nat) (s : LBuf × Nat × Nat) (c : Cell) :
+theorem placeCell_keeps_pal (gl gb : Bool) (x0 xl : Nat) (s : LBuf × Nat × Nat) (c : Cell) :
     (placeCell gl gb x0 xl s c).1.pal = s.1.pal := by
   unfold placeCell
   simp only []
-  split <;> (simp only [setChar_pal]; cases gl <;> cases gb <;> rfl)
+  split <;> (simp only [setChar_keeps_pal]; cases gl <;> cases gb <;> rfl)
 
-theorem placeAll_pal (gl gb : Bool) (x0 xl : Nat) (cells : List Cell) : ∀ (b : LBuf) (x y : Nat),
+theorem placeAll_keeps_pal (gl gb : Bool) (x0 xl : Nat) (cells : List Cell) : ∀ (b : LBuf) (x y : Nat),
     (placeAll gl gb x0 xl b x y cells).1.pal = b.pal := by
   induction cells with
   | nil => intro b x y; rfl
@@ -130,7 +130,7 @@ theorem placeAll_pal (gl gb : Bool) (x0 xl : Nat) (cells : List Cell) : ∀ (b :
     simp only [List.foldl_cons]
     have := ih (placeCell gl gb x0 xl (b, x, y) c).1 (placeCell gl gb x0 xl (b, x, y) c).2.1 (placeCell gl gb x0 xl (b, x, y) c).2.2
     unfold placeAll at this
-    rw [this, placeCell_pal]
+    rw [this, placeCell_keeps_pal]
 
 theorem crop_pal (b : LBuf) : b.crop.pal = b.pal := rfl
 
@@ -169,7 +169,7 @@ theorem xb_loader_palette (data : List Nat) (s : Option Sauce) (g : LBuf) (h : x
       dsimp only at h
       injection h with h
       subst h
-      rw [crop_pal, placeAll_pal]
+      rw [crop_pal, placeAll_keeps_pal]
       show b3.pal = if hasPal = true then from63 (rest.take Xb.paletteLength) else dosPalette
       have e3 : b3.pal = b2.pal := by
         show (if hasFont = true then _ else b2).pal = b2.pal
